@@ -427,7 +427,12 @@ def shrink_generic(ctx, comp, case, which, budget_s):
         progressed = False
         paths = sorted(list_paths(best["in"]), key=lambda p: -len(term_get(best["in"], p)))
         for p in paths:
-            lst = term_get(best["in"], p)
+            try:
+                lst = term_get(best["in"], p)
+            except (IndexError, KeyError, TypeError):
+                continue            # the path vanished with an earlier removal
+            if not isinstance(lst, list):
+                continue
             i = len(lst) - 1
             while i >= 0 and time.time() < t_end:
                 cand = term_set(best["in"], p, lst[:i] + lst[i + 1:])
@@ -435,8 +440,8 @@ def shrink_generic(ctx, comp, case, which, budget_s):
                 if r is not None:
                     best, lst, progressed = r, lst[:i] + lst[i + 1:], True
                 i -= 1
-            if time.time() >= t_end:
-                break
+            if progressed or time.time() >= t_end:
+                break               # paths below this list may have shifted: recompute
     ctx.say("  structurally shrunk in %d evaluations" % evals[0])
     return best
 
